@@ -44,6 +44,7 @@ func init() {
 				seqSpec{Cfg: "bigbatch/bytewise", Alpha: c11Alpha, Depth: d1, Checks: "db,views"},
 				seqSpec{Cfg: "flushy/bytewise", Alpha: c11Alpha, Depth: d1, Checks: "db,views"},
 				seqSpec{Cfg: "rot/bytewise", Alpha: c11Alpha, Depth: d2, Checks: "db,views"},
+				seqSpec{Cfg: "throttle/bytewise", Alpha: c11Alpha, Depth: d2, Checks: "db,views"},
 				seqSpec{Cfg: "default/bytewise", Alpha: c11Alpha, Depth: d2, Checks: "db,views"},
 			)
 			for _, cfg := range []string{"nocache/bytewise", "evict/bytewise"} {
